@@ -245,3 +245,5 @@ func (p *Prog) InFile(pos token.Pos, rel string) bool {
 	}
 	return strings.TrimPrefix(p.Fset.Position(pos).Filename, p.RepoDir+"/") == rel
 }
+
+type typesConst = types.Const
